@@ -197,6 +197,23 @@ func (g *gen) convProbes() {
 			B: &Expr{Op: "int", Ty: TInt, I: vlib.Pick(r, []int64{20, 40, 11, -1, -3})}}
 		add(pn, e, "probe/int-pow")
 	}
+	if !g.cfg.NoText && r.Chance(35) {
+		// a regex subst whose pattern captures and whose replacement contains `$`:
+		// the replacement is literal text
+		pn := g.fixedPat(`[a-z]+`, []string{"banana", "abc", "xay", "zzz", "a"})
+		sp := g.newPat(true)
+		sp.P.Word, sp.P.Anchor, sp.P.Text, sp.P.InSubst = "a", "", "(a)", true
+		sp.P.Parts = []PatPart{{Lit: "(a)"}}
+		e := &Expr{Op: "rsubst", Ty: TStr, Pat: sp,
+			B: &Expr{Op: "str", Ty: TStr, S: vlib.Pick(r, []string{"<$1>", "${1}x", "$$", "$1$1", "$0"})},
+			C: &Expr{Op: "cap", Ty: TStr, Pat: pn, Grp: 1}}
+		if s := g.storeValue(e); s != nil {
+			g.p.Body = append(g.p.Body, &Stmt{Op: "cond", E: &Expr{Op: "match", Ty: TBool, Pat: pn}, Then: []*Stmt{s}})
+			g.feat("probe/subst-dollar")
+		} else {
+			g.p.patterns = g.p.patterns[:len(g.p.patterns)-2]
+		}
+	}
 	if !g.cfg.NoFloat && r.Chance(35) {
 		pn := g.fixedPat(`\d+\.\d+`, []string{"0.00001", "0.000025", "2500000000000000000000.0", "0.0001", "123456789.125", "1.50", "1000000000000000000000.0"})
 		add(pn, &Expr{Op: "cap", Ty: TFloat, Pat: pn, Grp: 1}, "probe/float-to-string")
